@@ -38,6 +38,9 @@ func ParseNavigationChars(commitStr string) (commitName string, numPeel int, err
 func PeelCommit(db objects.Store, hash []byte, commit *objects.Commit, numPeel int) ([]byte, *objects.Commit, error) {
 	var err error
 	for numPeel > 0 {
+		if len(commit.Parents) == 0 {
+			return nil, nil, fmt.Errorf("commit %x has no parent", hash)
+		}
 		hash = commit.Parents[0][:]
 		commit, err = objects.GetCommit(db, hash)
 		if err != nil {
